@@ -95,3 +95,68 @@ Proof. unfold svd_ok, unitary_cols, unitary_rows, real_vec, desc_nonneg, wf, vwf
   - intros i Hi. destruct i as [|[|]]; cbn [vget nth]; try lra; lia.
   - intros i j Hij Hj. destruct j as [|[|]]; destruct i as [|[|]]; cbn [vget nth]; try lra; lia.
 Qed.
+
+(* ---- Eckart-Young, partial: among all reconstructions that keep ANY k of the r modes, keeping the
+   first k attains the smallest Frobenius error ---- *)
+Fixpoint count_true (r : nat) (b : nat -> bool) : nat :=
+  match r with O => O | S r' => (if b r' then 1 else 0) + count_true r' b end.
+
+Lemma masked_sum_le_leading (a : nat -> R) (b : nat -> bool) : forall r k,
+  (forall i, (i < r)%nat -> 0 <= a i) -> (forall i j, (i <= j)%nat -> (j < r)%nat -> a j <= a i) ->
+  count_true r b = k ->
+  sum OR r (fun i => if b i then a i else 0) <= sum OR k a.
+Proof. induction r as [|r IH]; intros k Hpos Hdesc Hc; cbn [count_true] in Hc.
+  - subst k. cbn. lra.
+  - cbn [sum fadd OR]. destruct (b r) eqn:Eb.
+    + destruct k as [|k]; [lia|]. assert (Hk : count_true r b = k) by lia.
+      assert (Hkr : (k <= r)%nat).
+      { clear -Hk. revert k Hk. induction r as [|r IHr]; intros k Hk; cbn [count_true] in Hk; [lia|]. destruct (b r); [destruct k; [lia|]; specialize (IHr k ltac:(lia)); lia | specialize (IHr k Hk); lia]. }
+      specialize (IH k (fun i Hi => Hpos i ltac:(lia)) (fun i j Hij Hj => Hdesc i j Hij ltac:(lia)) Hk).
+      cbn [sum fadd OR]. assert (a r <= a k) by (apply Hdesc; lia). lra.
+    + specialize (IH k (fun i Hi => Hpos i ltac:(lia)) (fun i j Hij Hj => Hdesc i j Hij ltac:(lia)) ltac:(lia)). lra. Qed.
+
+Lemma count_true_min r k : count_true r (fun i => Nat.ltb i k) = Nat.min r k.
+Proof. induction r as [|r IH]; cbn [count_true]; [reflexivity|]. rewrite IH. destruct (Nat.ltb_spec r k); lia. Qed.
+
+Lemma count_true_leading r k : (k <= r)%nat -> count_true r (fun i => Nat.ltb i k) = k.
+Proof. intros Hk. rewrite count_true_min. lia. Qed.
+
+Section EckartYoungSubsets.
+Variables (n p r k : nat) (X U Vt : list (list R)) (s : list R).
+Hypothesis OK : svd_ok OR n p r X (U, s, Vt).
+Hypothesis Hord : desc_nonneg r s.
+
+(* reconstruction that keeps the modes selected by the mask b (zero-padded diagonal) *)
+Definition recon_mask (b : nat -> bool) : list (list R) :=
+  mmul OR n r p (mmul OR n r r U (mdiag OR r (vtab r (fun i => if b i then vget OR s i else 0)))) Vt.
+
+Lemma error_mask (b : nat -> bool) :
+  frob2 OR n p (msub OR n p X (recon_mask b)) = sum OR r (fun i => if b i then 0 else vget OR s i * vget OR s i).
+Proof. destruct OK as (HX & HU & HVt & Hs & Hfac & HUU & HVV & Hreal). unfold recon_mask.
+  rewrite Hfac at 1. rewrite <- (mmul_msub_l OR OR_FieldLaws). rewrite <- (mmul_msub_r OR OR_FieldLaws).
+  assert (Hd : msub OR r r (mdiag OR r s) (mdiag OR r (vtab r (fun i => if b i then vget OR s i else 0)))
+               = mdiag OR r (vtab r (fun i => if b i then 0 else vget OR s i))).
+  { unfold msub, mdiag. apply tab_ext. intros i j Hi Hj. rewrite !get_tab by assumption. rewrite !vget_vtab by assumption.
+    cbn [fsub fmul OR]. destruct (b i); ring. }
+  rewrite Hd. rewrite (frob2_UeVt OR OR_FieldLaws n p r X U Vt s OK).
+  - apply (sum_ext OR). intros i Hi. rewrite vget_vtab by exact Hi. cbn [fmul OR]. destruct (b i); ring.
+  - intros i Hi. reflexivity. Qed.
+
+Theorem eckart_young_subsets (b : nat -> bool) : (k <= r)%nat -> count_true r b = k ->
+  frob2 OR n p (msub OR n p X (recon_mask (fun i => Nat.ltb i k))) <= frob2 OR n p (msub OR n p X (recon_mask b)).
+Proof. intros Hk Hc. rewrite !error_mask. destruct Hord as [Hpos Hdesc].
+  set (a := fun i => vget OR s i * vget OR s i).
+  assert (Hap : forall i, (i < r)%nat -> 0 <= a i) by (intros i Hi; unfold a; specialize (Hpos i Hi); nra).
+  assert (Had : forall i j, (i <= j)%nat -> (j < r)%nat -> a j <= a i).
+  { intros i j Hij Hj. unfold a. assert (0 <= vget OR s j) by (apply Hpos; lia). assert (vget OR s j <= vget OR s i) by (apply Hdesc; lia). nra. }
+  (* error(b) = total - kept(b) *)
+  assert (Hsplit : forall c : nat -> bool, sum OR r (fun i => if c i then 0 else a i) = sum OR r a - sum OR r (fun i => if c i then a i else 0)).
+  { intros c. rewrite <- (sum_sub OR OR_FieldLaws). apply (sum_ext OR). intros i Hi. cbn [fsub OR]. destruct (c i); lra. }
+  change (sum OR r (fun i => if Nat.ltb i k then 0 else a i) <= sum OR r (fun i => if b i then 0 else a i)).
+  rewrite (Hsplit b), (Hsplit (fun i => Nat.ltb i k)). cbn [fsub OR].
+  pose proof (masked_sum_le_leading a b r k Hap Had Hc) as H1.
+  assert (H2 : sum OR r (fun i => if Nat.ltb i k then a i else 0) = sum OR k a).
+  { rewrite (sum_trunc OR OR_FieldLaws k r) by (try exact Hk; intros i H3 H4; replace (Nat.ltb i k) with false by (symmetry; apply Nat.ltb_ge; lia); reflexivity).
+    apply (sum_ext OR). intros i Hi. replace (Nat.ltb i k) with true by (symmetry; apply Nat.ltb_lt; lia). reflexivity. }
+  rewrite H2. lra. Qed.
+End EckartYoungSubsets.
